@@ -742,18 +742,21 @@ def _r11_sections(model: Model, run: Run, folder: Folder) -> None:
         run.cannot('messages(): the announce / withdraw sorting loops or their buffers were not found (%d, %d, %s, %s)' % (len(ann), len(wdr), sorted(plain), sorted(keyed)))
         return
 
-    def unknown(e: ast.AST):
-        t = norm(e)
-        if t.startswith('isinstance(') and 'Empty' in t:
-            return False
-        if 'negotiated.families' in t:
-            return False  # the family was negotiated
-        if 'validate_announce_nlri' in t:
-            return None
-        return UNKNOWN
-
     def turn(loop: ast.For, item: dict) -> tuple[list[str], object]:
         eff: list[str] = []
+        nl = item.get('nlri', item)
+
+        def unknown(e: ast.AST):
+            t = norm(e)
+            if t.startswith('isinstance(') and 'Empty' in t:
+                return False
+            if 'negotiated.families' in t:
+                return False  # the family was negotiated
+            if 'validate_announce_nlri' in t:
+                return None
+            if t.endswith('.family().afi_safi()'):
+                return (nl['afi'], nl['safi'])
+            return UNKNOWN
 
         def effect(call: ast.Call, env: dict) -> bool:
             f = call.func
